@@ -16,7 +16,7 @@ from .common import (
 
 PID = "C01"
 LEVEL = "exploration"
-BUDGET = {"quick": 60000, "thorough": 1500000}
+BUDGET = {"quick": 300000, "thorough": 6000000}
 RULE = (
     "each run draws a swarm configuration (flavour palettes, suspension depth, length/key scale, "
     "interrupt density) and 1..3 co-tenant scenarios: a tool, its valid parameters, 0..4 sources of "
